@@ -133,9 +133,26 @@ func runG(c GCase, rec *h.Rec) {
 	for pos := 0; pos < len(stream); pos++ {
 		orig := stream[pos]
 		vals := []byte{orig ^ 1, orig ^ 0x80, c.SubVal}
-		if f, _ := fieldAt(ms, pos); f == "bsize" {
+		if f, mi := fieldAt(ms, pos); f == "bsize" {
 			// values that make the member look empty or one byte off
 			vals = append(vals, 17, 18, orig+1, orig-1)
+			// values that make the member end exactly where a later member ends
+			// (the declared span then holds several whole members)
+			cur := ms[mi].Size - 1
+			span := ms[mi].Size
+			for j := mi + 1; j < len(ms) && j <= mi+4; j++ {
+				span += ms[j].Size
+				t := span - 1
+				if t > 0xffff {
+					break
+				}
+				if t&0xff00 == cur&0xff00 && byte(cur) == orig {
+					vals = append(vals, byte(t))
+				}
+				if t&0xff == cur&0xff && byte(cur>>8) == orig {
+					vals = append(vals, byte(t>>8))
+				}
+			}
 		}
 		if c.Full && len(stream) <= 700 {
 			vals = vals[:0]
@@ -223,16 +240,21 @@ type BCase struct {
 	Cuts   []int // member boundaries inside the record stream (payload offset mod length)
 	RD     int
 	SubVal byte
+	Big    int // >0: record Big%len gets a 4200-byte Z field followed by more aux fields (a record larger than the reader's inline buffer)
 }
 
 func drawB(t *rapid.T) BCase {
 	opt := sb.RecOpt{NRefs: 2, Aux: sb.AuxOpt{NoH: true}, MaxAux: 2}
-	return BCase{
+	c := BCase{
 		Recs:   rapid.SliceOfN(sb.RecGen(opt), 1, 6).Draw(t, "recs"),
 		Cuts:   rapid.SliceOfN(rapid.IntRange(0, 100000), 1, 3).Draw(t, "cuts"),
 		RD:     rapid.SampledFrom([]int{1, 3}).Draw(t, "rd"),
 		SubVal: rapid.Byte().Draw(t, "subval"),
 	}
+	if rapid.IntRange(0, 3).Draw(t, "big?") == 0 {
+		c.Big = rapid.IntRange(1, 6).Draw(t, "big")
+	}
+	return c
 }
 
 func readBAM(stream []byte, rd int) (hdr string, lines []string, err error, panicked string) {
@@ -281,12 +303,29 @@ func runB(c BCase, rec *h.Rec) {
 		}
 		c.Recs[i].NCigar = 0
 	}
+	if c.Big > 0 {
+		a := &c.Recs[c.Big%len(c.Recs)]
+		a.Aux = append(a.Aux, sb.AAux{Tag: "z0", Ty: 'Z', ZN: 4200}, sb.AAux{Tag: "z1", Ty: 'i', I: -70000},
+			sb.AAux{Tag: "z2", Ty: 'Z', S: "tail"}, sb.AAux{Tag: "z3", Ty: 'B', Sub: 's', BI: []int64{-3, 4, 5}}, sb.AAux{Tag: "z4", Ty: 'C', I: 7})
+	}
 	text, _ := hd.MarshalText()
 	payload := sb.SpecBAMHeader(text, specs)
 	hdrLen := len(payload)
 	recEnd := map[int]int{hdrLen: 0} // payload offset -> number of complete records before it
 	var lines []string
+	var anchors []int // payload offsets of record starts and of aux field boundaries
+	var bigAnchors []int
 	for i, a := range c.Recs {
+		start := len(payload)
+		anchors = append(anchors, start)
+		for k := range a.Aux {
+			part := a
+			part.Aux = a.Aux[:k]
+			anchors = append(anchors, start+len(sb.SpecBAMRecord(part)))
+			if c.Big > 0 && i == c.Big%len(c.Recs) && k > 0 && a.Aux[k-1].ZN > 0 || len(bigAnchors) > 0 && i == c.Big%len(c.Recs) {
+				bigAnchors = append(bigAnchors, anchors[len(anchors)-1])
+			}
+		}
 		payload = append(payload, sb.SpecBAMRecord(a)...)
 		recEnd[len(payload)] = i + 1
 		lines = append(lines, sb.SpecSAMLine(a, specs, 0))
@@ -294,9 +333,18 @@ func runB(c BCase, rec *h.Rec) {
 	cutSet := map[int]bool{}
 	for _, cu := range c.Cuts {
 		p := hdrLen + cu%(len(payload)-hdrLen+1)
+		if cu%2 == 1 {
+			// a block boundary at, or within two bytes of, a record start or an aux field boundary
+			k := cu / 2
+			p = anchors[k%len(anchors)] + (k/len(anchors))%5 - 2
+		}
 		if p > 0 && p < len(payload) {
 			cutSet[p] = true
 		}
+	}
+	// the large record is always split behind its long field and at the field boundaries after it
+	for k, a := range bigAnchors {
+		cutSet[a+(c.Big+k)%3] = true
 	}
 	var pieces [][]byte
 	prev := 0
@@ -357,7 +405,11 @@ func runB(c BCase, rec *h.Rec) {
 		}
 	}
 	damaged := make([]byte, len(stream))
-	for pos := 0; pos < len(stream); pos++ {
+	step := 1
+	if len(stream) > 1500 {
+		step = 5 // cost: long streams get every fifth position, the phase drawn with the case
+	}
+	for pos := int(c.SubVal) % step; pos < len(stream); pos += step {
 		orig := stream[pos]
 		for _, v := range []byte{orig ^ 1, orig ^ 0x80, c.SubVal} {
 			if v == orig {
@@ -377,6 +429,7 @@ func runB(c BCase, rec *h.Rec) {
 			nt++
 		}
 	}
+	rec.ClassIf(c.Big > 0, "record_larger_than_4096_bytes")
 	rec.NTIf(len(f.Members) >= 3)
 }
 
